@@ -107,7 +107,18 @@ def judge(case) -> Outcome:
             except Exception as e:  # noqa: BLE001
                 out.fail("c20.fitted_spec_gradient", f"{f!r} wrt {wrt}: materializing the gradient of a fitted spec: {type(e).__name__}: {str(e)[:120]}")
         elif entry == "structured":
-            ds = list(Formula(f"{f} | {f}", _ordering=case["ordering"]).differentiate(*wrt)._flatten())
+            dstruct = Formula(f"{f} | {f}", _ordering=case["ordering"]).differentiate(*wrt)
+            ds = list(dstruct._flatten())
+            # the gradient of a (structured) formula is itself a formula: it can be materialized and differentiated again
+            try:
+                with quiet():
+                    parts = list(dstruct.get_model_matrix(pd.DataFrame(case["data"]), output="numpy", ensure_full_rank=False, context={})._flatten())
+                    again = dstruct.differentiate(wrt[0])
+                if len(parts) != len(ds) or len(list(again._flatten())) != len(ds):
+                    out.fail("c20.structured_gradient_unusable", f"{f!r} wrt {wrt}: the structured gradient materializes to {len(parts)} parts for {len(ds)}")
+                out.see("structured_gradients_used")
+            except Exception as e:  # noqa: BLE001
+                out.fail("c20.structured_gradient_unusable", f"{f!r} wrt {wrt}: the gradient of a structured formula cannot be used as a formula: {type(e).__name__}: {str(e)[:100]}")
         else:
             specs = ModelSpec.from_spec(Formula(f"{f} | {f}", _ordering=case["ordering"])).differentiate(*wrt)
             ds = [ms.formula for ms in specs._flatten()]
